@@ -26,6 +26,8 @@ structure DState where
   tampered : Bool := false
   /-- greatest eviction boundary ever in force in this history (for the D2 classification) -/
   maxBd : Option LogId := none
+  /-- a held snapshot (`snap`): the store and the reference entries at that moment -/
+  snap : Option (Store × List (LogId × Bytes)) := none
 
 def out (s : String) : IO Unit := IO.println s
 
@@ -414,6 +416,38 @@ def step (d : DState) (line : String) : IO DState := do
       if d.specOn then out s!"=read {showSpecItems (d.spec.read a b)}"
       return { d with sys := { d.sys with store := some s' } }
     | _, _, _ => out "read none"; return d
+  | ["mread", k, a, b] =>
+    -- k reader threads at once: every one of them must see what a single `read` sees;
+    -- the hit/miss counters move as for k reads
+    match d.sys.store, k.toNat?, a.toNat?, b.toNat? with
+    | some s, some k, some a, some b =>
+      if k == 0 || k > 16 then out "bad-op"; return d
+      let (items, _) := s.read d.sys.fs a b
+      out s!"read {showItems items}"
+      for (_, ld) in s.log.filter (fun e => a ≤ e.1 && e.1 < b) do
+        c07Info s d.sys.fs ld d.maxBd
+      if d.specOn then out s!"=read {showSpecItems (d.spec.read a b)}"
+      let mut cur := s
+      for _ in [0:k] do
+        cur := (cur.read d.sys.fs a b).2
+      return { d with sys := { d.sys with store := some cur } }
+    | none, _, _, _ => out "read none"; return d
+    | _, _, _, _ => out "bad-op"; return d
+  | ["snap"] =>
+    -- dump_data(): a snapshot that is kept while the store goes on
+    match d.sys.store with
+    | some s => out "snap ok"; return { d with snap := some (s, d.spec.entries) }
+    | none => out "snap none"; return d
+  | ["snapiter"] =>
+    -- iterate the held snapshot now: its own index, cache copy and closed-chunk table; today's files
+    match d.snap with
+    | some (s, ents) =>
+      out s!"iter {showItems (s.iter d.sys.fs)}"
+      for (_, ld) in s.log do
+        c07Info s d.sys.fs ld d.maxBd
+      if d.specOn then out s!"=iter {showSpecItems ents}"
+      return d
+    | none => out "iter none"; return d
   | ["iter"] =>
     match d.sys.store with
     | some s =>
